@@ -123,6 +123,9 @@ class Ctx:
         self._spec_ready = False
         self._known = load_known()
         self._printed_known = set()
+        # --replay <file>: checks with a dedicated replay path read ctx.replay themselves; for the others the
+        # driver re-runs the check with the replay file's tier and seed and reports only that file's signature
+        self.replay_sig = None
 
     # ------------------------------------------------------------------ utils
     def log(self, *a):
@@ -280,6 +283,8 @@ class Ctx:
     def finding(self, signature, what, replay_obj):
         """Report a real-code behaviour that violates the property.  Known open
         findings are printed once and suppress only their own signature."""
+        if self.replay_sig is not None and signature != self.replay_sig:
+            return False
         k = match_known(self._known, self.pid, signature)
         if k is not None:
             self.known_hit[k["signature"]] = self.known_hit.get(k["signature"], 0) + 1
@@ -418,6 +423,10 @@ def harvest_printt(tag):
     return keep, acc
 
 
+# checks that re-execute exactly the recorded case (the others re-run with the recorded tier and seed)
+DEDICATED_REPLAY = {"C19", "C06", "C05", "C03", "C12"}
+
+
 def main(run_fn, pid):
     import argparse
     ap = argparse.ArgumentParser()
@@ -426,7 +435,15 @@ def main(run_fn, pid):
     ap.add_argument("--seed", type=int, default=int(os.environ.get("VERIF_SEED", "1") or 1))
     a = ap.parse_args(sys.argv[2:])
     tier = a.tier if a.tier in ("quick", "thorough") else "quick"
-    ctx = Ctx(pid, tier, a.seed, a.replay)
+    seed = a.seed
+    generic_replay = None
+    if a.replay and pid not in DEDICATED_REPLAY:
+        with open(a.replay) as f:
+            rp = json.load(f)
+        tier, seed, generic_replay = rp.get("tier", tier), rp.get("seed", seed), rp["signature"]
+        a.replay = None
+    ctx = Ctx(pid, tier, seed, a.replay)
+    ctx.replay_sig = generic_replay
     code = 0
     try:
         level = run_fn(ctx) or "model_checking"
